@@ -34,3 +34,42 @@ fn c15_unnamed_thread_before_named_thread() {
         "entry 0 must pair tid 22 with \"bc\"; image = {img:02x?}"
     );
 }
+
+/// C15, tier B′ (bounded-exhaustive, native): every thread list of 1..=3 threads over {unnamed} ∪ 7 names covering
+/// every UTF-8 width, the BMP / supplementary-plane boundary (one and two UTF-16 units per character), the empty
+/// name and the 15-byte comm limit — 8 + 64 + 512 lists: the stream holds exactly one entry per NAMED thread, in
+/// list order, pairing that thread's id with exactly its name; the stream size is the one the count implies.
+#[test]
+fn bprime_thread_names_of_every_short_list() {
+    const NAMES: [Option<&str>; 8] = [None, Some(""), Some("a"), Some("worker-1 x"), Some("na\u{ef}ve"), Some("\u{65e5}\u{672c}"),
+                                      Some("\u{1f980}crab"), Some("a\u{1d11e}b\u{1f600}")];
+    let mut n_eval = 0usize;
+    for len in 1..=3usize {
+        let mut idx = vec![0usize; len];
+        loop {
+            let threads: Vec<Thread> = idx.iter().enumerate().map(|(k, &i)| Thread { tid: 100 + 7 * k as i32, name: NAMES[i].map(|s| s.to_string()) }).collect();
+            let want: Vec<(u32, String)> = threads.iter().filter_map(|t| t.name.clone().map(|n| (t.tid as u32, n))).collect();
+            let dumper = bare_dumper_with_threads(threads);
+            let mut buffer = DumpBuf::with_capacity(0);
+            buffer.write_all(b"xyz");
+            let dirent = write(&mut buffer, &dumper).expect("write failed");
+            std::mem::forget(dumper);
+            n_eval += 1;
+            let img: &[u8] = &buffer;
+            let base = dirent.location.rva as usize;
+            assert_eq!(base, 3, "the stream is appended to the image ({idx:?})");
+            assert_eq!(le32(img, base) as usize, want.len(), "one entry per named thread ({idx:?})");
+            assert_eq!(dirent.location.data_size as usize, 4 + 12 * want.len(), "stream size ({idx:?})");
+            for (k, (tid, name)) in want.iter().enumerate() {
+                let e = base + 4 + 12 * k;
+                let got = (le32(img, e), read_name(img, le64(img, e + 4) as usize));
+                assert_eq!(got, (*tid, Some(name.clone())), "entry {k} of list {idx:?}");
+            }
+            // next list
+            let mut p = 0;
+            while p < len { idx[p] += 1; if idx[p] < NAMES.len() { break; } idx[p] = 0; p += 1; }
+            if p == len { break; }
+        }
+    }
+    println!("BPRIME evaluations={n_eval}");
+}
